@@ -391,5 +391,5 @@ StateBound ==
 \* state does not distinguish it)
 BudgetedCnt == [k \in DOMAIN hist.cnt \cap DOMAIN Bound |-> hist.cnt[k]]
 View == <<node, disk, app, net,
-          [hist EXCEPT !.dlPrev = 0, !.hsExpPrev = 0, !.heard = 0, !.leadAge = 0, !.cnt = BudgetedCnt]>>
+          [hist EXCEPT !.dlPrev = 0, !.hsExpPrev = 0, !.heard = 0, !.leadAge = 0, !.sinceLead = 0, !.cnt = BudgetedCnt]>>
 =============================================================================
